@@ -187,7 +187,7 @@ def signature(c):
     which validator / rendering site applies: kind of the route path, kind of location, kind of action (harness leafContext).
     For the route path itself the path kind is that of the INJECTED value (the value chooses its own validator)."""
     sig = {"kind": "injection", "field": norm_field(c["field"])}
-    m = re.match(r'^vsr?:(prefix|regex|iregex|exact):([a-z+-]+):up=[a-z-]+:act=([a-z-]+)', c.get("ctx") or "")
+    m = re.match(r'^vsr?:(prefix|regex|iregex|exact):([a-z0-9+-]+):up=[a-z-]+:act=([a-z-]+)', c.get("ctx") or "")
     if m:
         sig["path_kind"], sig["loc"], sig["action"] = m.group(1), m.group(2), m.group(3)
         if sig["field"] == "Route.path":
@@ -267,6 +267,14 @@ def judge(run, bases, cases, rows, verbose=False):
             ar[c["field"]] = ar.get(c["field"], 0) + 1
         if verbose:
             print("  case %d %s %s = %r: tag=%d spec=%d go=%d  %s" % (cid, c["fixture"], c["path"], bytes_of(c["value"]).decode("latin1"), tag, spec, o["go_verdict"], context(base, c)))
+        if c.get("history") == "rejected-not-served":
+            run.failing({"kind": "rejected-but-served", "field": norm_field(c["field"]), "ctx": c.get("ctx") or ""}, [slim(c)],
+                        "the REAL validator rejects %s = %r [context %s] (fixture %s/%s), yet the controller path serves the resource: what is rendered is not what is "
+                        "rendered without the resource%s: %s"
+                        % (c["path"], bytes_of(c["value"]).decode("latin1"), c.get("ctx") or "-", c["fixture"], "plus" if c["plus"] else "oss",
+                           " -- and the structure differs" if not spec else "", context(base, c)),
+                        theorem="premise of C06: only validated resources reach the generator (Configuration.AddOrUpdate* path)")
+            continue
         if c.get("history"):
             hsig = {"kind": "stale-validation", "field": norm_field(c["field"]), "history": c["history"]}
             val = bytes_of(c["value"]).decode("latin1")
